@@ -131,6 +131,28 @@ def judgeRawSplit (_payload impl : String) : Verdict :=
   | _ => { corr := false, implSpec := false, modelSpec := true, tags := [], nontrivial := true,
            cls := "no-observation", model := "-", spec := "the observation of the unsplit bytes" }
 
+/-- http.h2c: an HTTP/1.1 connection upgraded to HTTP/2 in clear text.  One item for the upgrade
+    exchange (the 101), one for the upgraded request answered on stream 1, one per later stream;
+    nothing left in the matcher; and the same under byte-wise delivery. -/
+def judgeH2c (payload impl : String) : Verdict :=
+  let streams := match Sx.parse payload with
+    | some (.list [.list (.atom "c" :: cfs), _]) =>
+      some (cfs.filter fun f => match f with | .list (.atom "h" :: _) => true | _ => false).length
+    | _ => none
+  match Sx.parse impl, streams with
+  | some (.list [.list [.atom "whole", a], .list [.atom "split", b]]), some k =>
+    let items := match field? a "items" with | some xs => xs.length | none => 0
+    let left := (field? a "left").map fun l => (Sx.list l).toStr
+    let first101 := match field? a "items" with
+      | some (.list [_, .list (.atom "resp" :: st :: _), _] :: _) => st.toStr == "101"
+      | _ => false
+    let ok := a.toStr == b.toStr && items == 2 + k && left == some "(0 0)" && first101
+    { corr := ok, implSpec := ok && (impl.splitOn "panic").length == 1, modelSpec := true, tags := [], nontrivial := true,
+      cls := s!"streams={k}", model := s!"items={2 + k}, left (0 0), same when split",
+      spec := "the 101 exchange, the upgraded request answered on stream 1, one item per later stream; independent of segmentation" }
+  | _, _ => { corr := false, implSpec := false, modelSpec := true, tags := [], nontrivial := true, cls := "no-observation",
+              model := "-", spec := "-" }
+
 /-! ### HTTP/2 -/
 
 def h2FrameOfSx : Sx → Option H2.Frame
